@@ -68,6 +68,7 @@ StatesBasis == {<<V2(0, 0), V2(0, 0), V2(0, 0)>>,
 EquilState(mt, su, sv) == <<su, sv, Solve2(mt.m, VSub2(O2, MatVec2(mt.k, su)))>>
 StatesFree == {EquilState(mt, su, sv) : mt \in MatsFree, su \in {V2(1, 0), V2(1, -1)}, sv \in {V2(0, 0), V2(2, 1)}}
               \cup {<<V2(1, -1), V2(2, 1), V2(-1, 2)>>}
+StatesOne == {<<V2(1, -1), V2(2, 1), V2(-1, 2)>>}
 StatesSwitch == {<<V2(1, 0), V2(0, 1), V2(0, 0)>>, <<V2(1, -1), V2(2, 1), V2(-1, 2)>>}
 
 LoadsQuick == {V2(0, 0), V2(3, -2)}
